@@ -124,6 +124,8 @@ where
         solver_stuff: impl SolverStuff<K, V>,
         should_continue: impl std::ops::Fn() -> bool + Clone,
     ) -> V {
+        #[cfg(feature = "verif-hooks")]
+        chalk_solve::verif_hooks::tick();
         // First check the cache.
         if let Some(cache) = &self.cache {
             if let Some(value) = cache.get(goal) {
@@ -213,6 +215,8 @@ where
         // the function which maps the loop iteration to `answer` is a nondecreasing function
         // so this function will eventually be constant and the loop terminates.
         loop {
+            #[cfg(feature = "verif-hooks")]
+            chalk_solve::verif_hooks::tick();
             let minimums = &mut Minimums::new();
             let current_answer = solver_stuff.solve_iteration(
                 self,
